@@ -14,6 +14,7 @@ import (
 	"reflect"
 	"sort"
 	"strings"
+	"time"
 
 	"github.com/mfcochauxlaberge/jsonapi"
 )
@@ -1067,7 +1068,7 @@ func runPayload(c payCase) payEvent {
 			if st.Attrs[k] != a {
 				ev.PDefs = false
 			}
-			if ev.Out == "accept" && !sameMaybeNil(full.Get(k), part.Get(k)) {
+			if ev.Out == "accept" && (!sameMaybeNil(full.Get(k), part.Get(k)) || !sameTimeText(full.Get(k), part.Get(k))) {
 				ev.PVals = false
 			}
 		}
@@ -1089,6 +1090,28 @@ func runPayload(c payCase) payEvent {
 		}
 	}
 	return ev
+}
+
+// sameTimeText: two decodings of the same bytes that are times are written back as the same text (the
+// same instant in another zone is another value to whoever marshals it); anything else passes
+func sameTimeText(a, b any) bool {
+	tm := func(x any) (time.Time, bool) {
+		switch v := x.(type) {
+		case time.Time:
+			return v, true
+		case *time.Time:
+			if v != nil {
+				return *v, true
+			}
+		}
+		return time.Time{}, false
+	}
+	ta, oka := tm(a)
+	tb, okb := tm(b)
+	if !oka || !okb {
+		return true
+	}
+	return ta.Format(time.RFC3339Nano) == tb.Format(time.RFC3339Nano)
 }
 
 func sameMaybeNil(a, b any) bool {
